@@ -209,6 +209,9 @@ def make_scripted_class():
             # the refinement margin of the maximum, so that one refine() call refines several objects (splits and
             # extends in the same round)
             self.multi = multi
+            # table = [[(dim, side), ...] per round]: in round r exactly the outermost interval (side 0: at the lower domain
+            # end, side 1: at the upper end) of the listed dimensions gets error 1, everything else 0 (directed histories)
+            self.table = None
 
         def calc_global_error(self, data, grid_scheme):
             return None
@@ -217,6 +220,13 @@ def make_scripted_class():
             if self.after_eval is not None:
                 self.after_eval(ro)
             if self.stop_round is not None and self.round >= self.stop_round:
+                return 0.0
+            if self.table is not None:
+                want = self.table[self.round] if self.round < len(self.table) else []
+                d = int(getattr(ro, "this_dim", -1))
+                for (dd, side) in want:
+                    if dd == d and ((side == 0 and float(ro.start) == float(ro.a)) or (side == 1 and float(ro.end) == float(ro.b))):
+                        return 1.0
                 return 0.0
             key = "%d:%d:%s:%s:%s" % (self.seed, self.round, getattr(ro, "this_dim", -1),
                                       np.asarray(ro.start, dtype=float).tobytes().hex(),
@@ -340,6 +350,27 @@ def gen_dw_case(ctx, thorough):
             "per_level": 2 if not thorough else 3, "peak": [r.randint(1, 15) / 16 for _ in range(dim)], "sharp": r.choice([4, 40, 400])}
 
 
+def gen_dwcorner_case(ctx, thorough):
+    """directed family: dim 3, lmax - lmin = 3, rebalancing off, a few rounds that deepen one corner of the domain in a
+    (changing) subset of the dimensions, so that lmax grows differently per dimension (max_coarsenings like [1,2,2]):
+    the per-dimension subtraction values of versions 6-8 then have to be covered by the growth of the index set"""
+    r = ctx.rng
+    dim = 3
+    lmin, lmax = r.choice([(1, 4), (1, 4), (1, 4), (2, 5)])
+    sides = [r.randint(0, 1) for _ in range(dim)]
+    nrounds = r.randint(2, 3)
+    table = []
+    for k in range(nrounds):
+        ds = [d for d in range(dim) if r.random() < (0.9 if k == 0 else 0.65)] or [r.randrange(dim)]
+        table.append([[d, sides[d]] for d in ds])
+    return {"strategy": "dw", "family": "corner", "dim": dim, "lmin": lmin, "lmax": lmax,
+            "dom": [list(r.choice(DOMAINS)) for _ in range(dim)],
+            "version": r.choice([6, 6, 8, 8, 7, 3]), "rebalancing": False, "boundary": r.random() < 0.8, "modified": False,
+            "margin": r.choice([0.9, 1.0]), "estimator": "scripted", "seed": r.randrange(10 ** 9), "power": 1,
+            "rounds": [1] * nrounds, "table": table, "per_level": 1,
+            "peak": [0.5] * dim, "sharp": 4}
+
+
 def dw_state_lines(sa, case):
     """scheme, index set and the table (dimension, component level) -> node list as the implementation computes them"""
     dim = case["dim"]
@@ -408,7 +439,7 @@ def run_dw(ctx, drv, case):
     rng = random.Random(case["seed"])
     boundary, modified = case["boundary"], case["modified"]
     tags = {"strategy": "dw", "version": case["version"], "rebalancing": case["rebalancing"], "boundary": boundary,
-            "modified": modified, "estimator": case["estimator"], "lmin": lmin, "dim": dim}
+            "modified": modified, "estimator": case["estimator"], "lmin": lmin, "dim": dim, "span": lmax - lmin}
     rec = Recorder(ctx, case, tags)
     hats = gen_hat_comps(rng, dim, lmin, lmax, interior_only=not boundary, per_level=case["per_level"], ncombo=3)
     lin = gen_multilinear_comps(rng, dim, 2, 1) if modified else []
@@ -436,6 +467,8 @@ def run_dw(ctx, drv, case):
             op.validation_set = None
             if case["estimator"] == "scripted":
                 ec = make_scripted_class()(case["seed"], case["power"], True)
+                if case.get("table") is not None:
+                    ec.table = [[tuple(x) for x in rnd] for rnd in case["table"]]
             else:
                 ec = ErrorCalculatorSingleDimVolumeGuided()
             sa = SpatiallyAdaptiveSingleDimensions2(a, b, version=case["version"], operation=op, rebalancing=case["rebalancing"],
@@ -1001,8 +1034,8 @@ def run_unit_1d(ctx, drv, n):
 
 
 # ------------------------------------------------------------------------------------------------ entry points
-RUNNERS = {"dw": run_dw, "es": run_es, "cell": run_cell, "escont": run_escont, "esmulti": run_es, "esgrid": run_es}
-GENERATORS = {"dw": gen_dw_case, "es": gen_es_case, "cell": gen_cell_case, "escont": gen_escont_case, "esmulti": gen_esmulti_case, "esgrid": gen_esgrid_case}
+RUNNERS = {"dw": run_dw, "es": run_es, "cell": run_cell, "escont": run_escont, "esmulti": run_es, "esgrid": run_es, "dwcorner": run_dw}
+GENERATORS = {"dw": gen_dw_case, "es": gen_es_case, "cell": gen_cell_case, "escont": gen_escont_case, "esmulti": gen_esmulti_case, "esgrid": gen_esgrid_case, "dwcorner": gen_dwcorner_case}
 
 
 def run(ctx):
@@ -1015,7 +1048,7 @@ def run(ctx):
                 "full parameter dict, non-trivial if at least one refinement round ran")
     ctx.assumptions = [
         "H_keep (Model/Exactness.keepsInitial) is evaluated on every state the explored histories reach; the for-all-histories statement "
-        "'the dimension-wise refinement (versions 3, 6, 7, 8, rebalancing off) only reaches states with keepsInitial = true' is monitored, not proved",
+        "'the dimension-wise refinement (versions 3, 6, 7, 8, rebalancing off) only reaches states with keepsInitial = true' is monitored, not proved -- and FALSE for dim >= 3 with lmax-lmin >= 3 (known findings C04-dw-v68/v7/v3-dim3-span3)",
         "hypotheses hid / hJdown of the criterion are C01's theorems (used without hypotheses in *_adaptive for the CombiScheme model)",
         "the node list of a component grid depends on the component only through (d, l_d) (C03); checked on every state (two grids with equal l_d)",
         "scipy.interpolate.interpn(method='linear') is modelled as iterated 1-D piecewise-linear interpolation (tensor functions: product of 1-D interpolants); checked by correspondence",
@@ -1037,7 +1070,7 @@ def run(ctx):
             import traceback
             ctx.corr_break("C04/corpus-case", {"file": os.path.basename(path)}, traceback.format_exc()[-1500:])
     budget = 85 if not thorough else 600
-    mix = ["dw", "es", "dw", "esgrid", "cell", "esmulti", "dw", "es", "dw", "dw", "cell", "esgrid", "es", "dw", "escont", "esmulti"]
+    mix = ["dw", "es", "dw", "esgrid", "cell", "esmulti", "dw", "es", "dwcorner", "dw", "dw", "cell", "esgrid", "es", "dw", "escont", "esmulti"]
     k = 0
     while ctx.time_left(budget) > 0 and k < (400 if not thorough else 6000):
         strat = mix[k % len(mix)]
